@@ -593,6 +593,10 @@ func (x *FnExec) loadTyped(st *State, p *Place, prefix string, t types.Type) Val
 		v := x.readLeaf(st, p, prefix, s)
 		x.rangeFact(v, t)
 		x.refFact(st, v, t)
+		switch t.Underlying().(type) {
+		case *types.Pointer, *types.Map:
+			x.entryRefFacts(p, prefix)
+		}
 		return v
 	}
 	switch u := t.Underlying().(type) {
@@ -601,6 +605,7 @@ func (x *FnExec) loadTyped(st *State, p *Place, prefix string, t types.Type) Val
 		s := &SliceV{x.readLeaf(st, p, prefix+".arr", rs), x.readLeaf(st, p, prefix+".off", rs), x.readLeaf(st, p, prefix+".len", rs), x.readLeaf(st, p, prefix+".cap", rs)}
 		x.sliceFacts(s)
 		x.refFact(st, s.arr, nil)
+		x.entryRefFacts(p, prefix+".arr")
 		return s
 	case *types.Struct:
 		sv := &StructV{}
@@ -653,6 +658,43 @@ func (x *FnExec) storeTyped(st *State, p *Place, prefix string, t types.Type, v 
 		x.writeLeaf(st, p, prefix+".[]", SArr(x.refSort(), es), v.(*ArrV).t)
 	default:
 		unsupp("store of type %s", t)
+	}
+}
+
+// entryRefFacts: every reference stored in a heap component AT FUNCTION ENTRY denotes an object allocated before
+// entry (so it is not fresh()).  Stated once per heap component, quantified over all objects / elements.
+// Only under `opt entryrefs` (the quantified facts slow unrelated queries down).
+func (x *FnExec) entryRefFacts(p *Place, key string) {
+	if x.entry == nil || x.top == nil || x.top.Opts["entryrefs"] == "" || x.entryRefDone[key] || (p.kind != pkHeap && p.kind != pkElem) {
+		return
+	}
+	hs, ok := x.heapSorts[key]
+	if !ok {
+		return
+	}
+	if x.entryRefDone == nil {
+		x.entryRefDone = map[string]bool{}
+	}
+	x.entryRefDone[key] = true
+	saved := x.writeLog
+	x.writeLog = nil
+	h := x.entry.getHeap(key, hs)
+	x.writeLog = saved
+	tc := x.tc
+	r := tc.BVar("r", x.refSort())
+	lim := x.entry.alloc
+	switch p.kind {
+	case pkHeap:
+		if hs != SArr(x.refSort(), x.refSort()) {
+			return
+		}
+		x.addFact(tc.Forall([]*Term{r}, tc.And(x.intLe(x.refConst(0), tc.Select(h, r)), x.intLt(tc.Select(h, r), lim))))
+	case pkElem:
+		if hs != SArr(x.refSort(), SArr(x.refSort(), x.refSort())) {
+			return
+		}
+		i := tc.BVar("i", x.refSort())
+		x.addFact(tc.Forall([]*Term{r, i}, tc.And(x.intLe(x.refConst(0), tc.Select(tc.Select(h, r), i)), x.intLt(tc.Select(tc.Select(h, r), i), lim))))
 	}
 }
 
